@@ -172,7 +172,7 @@ def rule_S(ck):
                 if c[0] == "is" and c[2] == SOME and c[3] and c[1][0] == "field" and c[1][2] in ("query", "command") and "get_mut" in str(c[1]):
                     n_occ += 1
                     want = ("ctor", ERR, (("ctor", "microscpi_macros::tree::Error::" + ("QueryExists" if c[1][2] == "query" else "CommandExists"), ()),))
-                    ok = x.kind == "return" and x.value == want and not stores and (isq == (c[1][2] == "query"))
+                    ok = x.kind in ("return", "err") and x.value == want and not stores and (isq == (c[1][2] == "query"))
                     ck.judge(ok, "C14-S", "insert_at:occupied#%d:%s" % (n_occ, c[1][2]), "occupied %s slot -> %s" % (c[1][2], show_term(want)),
                              "occupied `%s` slot does not return the matching error: %s %s" % (c[1][2], x.kind, show_term(x.value)), data=pathsum.show_exit(x)[:1500])
         ck.floor("C14-S", "leaf-slot stores in insert_at", n_store, 2)
@@ -197,7 +197,7 @@ def rule_S(ck):
                 t = ("call",) + r[1:]
                 d = ps.decided(pathsum.St(x.conds), t, OK)
                 if d is False:
-                    ck.judge(x.kind == "err" and x.value == ("ctor", ERR, (("payload", t, ERR, 0),)), "C14-S", "insert_at:recursion-error#%d" % i,
+                    ck.judge(x.kind in ("return", "err") and x.value == ("ctor", ERR, (("payload", t, ERR, 0),)), "C14-S", "insert_at:recursion-error#%d" % i,
                              "error of the recursive insertion is propagated", "error of the recursive insertion is dropped: %s" % pathsum.show_exit(x)[:300])
                 elif d is None:
                     ck.bad("C14-S", "insert_at:recursion-result#%d" % i, "result of the recursive insert_at is not inspected")
